@@ -45,6 +45,21 @@ CHECKS = {
         note='Not covered: that every syntactic position routes through one of the four entry points (call-graph fact). Trusted: FxHashMap '
              'entry/or_default shim, str::contains shim, typst-syntax tree model, definitional axiom of marks_sub.',
         ref='DESIGN.md 5/C07', technique=TECH),
+    'C08': dict(
+        text='Proof of per-function obligations (partial): Text tokens are re-emitted as Text(full source text); a whitespace token becomes '
+             'exactly a blank or a mandatory line break according to whether it held a (Typst) newline; a paragraph break becomes exactly '
+             'count_linebreaks(text) mandatory breaks; has_linebreak/count_linebreaks are exact w.r.t. Typst\'s newline set; '
+             'get_fold_style never yields the never-fold style when breaks are suppressed; suppress_breaks is exact.',
+        note='Partial: collect_markup_repr / convert_markup_impl (the line regrouping itself) are contract-only stubs unless listed in evidence. '
+             'Trusted: shims, parser facts.',
+        ref='DESIGN.md 5/C08', technique=TECH),
+    'C09': dict(
+        text='Proof for the math engine: convert_math emits exactly one piece per child in order (whitespace -> blank / mandatory break by '
+             'its newline content, `#` and other tokens -> their own text, expressions -> convert_expr with breaks suppressed), nothing in '
+             'between; convert_equation / convert_math_attach/frac/root verified for comment safety against the list/flow engines.',
+        note='Partial: convert_math_delimited and convert_args_in_math are contract-only stubs (slice patterns / closure capturing &mut). '
+             'Trusted: shims, parser facts.',
+        ref='DESIGN.md 5/C09', technique=TECH),
     'C10': dict(
         text='Proof for leaf emission (leaf converters return Text(token text)) and raw rebuild; the call-site precondition of the '
              'post-processing pass (no rendered line inside a literal ends in a blank) is a KNOWN FINDING (C10-F1).',
